@@ -150,8 +150,8 @@ def morgan_generator(
             ids_lst.append(id)
             nbrs_lists.append(nbrs)
 
-        ids = np.array(ids_lst, dtype=np.int16)
-        nbrs = np.array(nbrs_lists, dtype=np.int16)
+        ids = np.array(ids_lst, dtype=np.int32)
+        nbrs = np.array(nbrs_lists, dtype=np.int32)
         id_nbrs_tuple_list.append((ids, nbrs))
 
     for _ in itertools.repeat(None):
@@ -268,7 +268,7 @@ def stereo_morgan_generator(
     for perm_group, atom_nbr_atoms_list_tup in grouped_atom_stereo.items():
         atom_arr_ids = np.array(
             [arr_id_dict[atom] for atom, _ in atom_nbr_atoms_list_tup],
-            dtype=np.int16,
+            dtype=np.int32,
         )
         as_atoms.append(atom_arr_ids)
 
@@ -277,7 +277,7 @@ def stereo_morgan_generator(
                 [arr_id_dict[a] for a in nbr_lst]
                 for _atom, nbr_lst in atom_nbr_atoms_list_tup
             ],
-            dtype=np.int16,
+            dtype=np.int32,
         )
 
         as_nbr_atoms.append(nbr_atoms)
@@ -306,7 +306,7 @@ def stereo_morgan_generator(
                 [arr_id_dict[atom] for atom in bond]
                 for bond, _ in atom_nbr_atoms_list_tup
             ],
-            dtype=np.int16,
+            dtype=np.int32,
         )
         bs_atoms.append(atom_arr_ids)
 
@@ -315,7 +315,7 @@ def stereo_morgan_generator(
                 [arr_id_dict[a] for a in nbr_lst]
                 for _atom, nbr_lst in atom_nbr_atoms_list_tup
             ],
-            dtype=np.int16,
+            dtype=np.int32,
         )
 
         bs_nbr_atoms.append(nbr_atoms)
@@ -356,7 +356,7 @@ def stereo_morgan_generator(
             ids.append(id)
             pntr_groups.append(ptrs)
 
-        atoms = np.array(ids, dtype=np.int16)
+        atoms = np.array(ids, dtype=np.int32)
         i_hash = np.empty((len(pntr_groups), key), dtype=np.int64)
         i_atoms_with_n_stereo.append((atoms, i_hash, pntr_groups))
 
